@@ -34,6 +34,8 @@ import PS.Model.Enum.HeapSearch
 import PS.Model.Enum.UHeapSearch
 import PS.Proofs.Enum.HeapSearch
 import PS.Proofs.Enum.GInst
+import PS.Proofs.Enum.UUnamb
+import PS.Proofs.Enum.UFrame
 namespace PS.C12HS
 open PS PS.G
 
@@ -234,5 +236,62 @@ example : (take fB 28 10 (Gen.new fG) []).map (fun r => (r.2.1.length, r.2.2, r.
 /-- a clean member: `(+ x x)` -/
 example : clean fFilter (.node fPlus [.node fX [], .node fX []]) = true := by decide +kernel
 end Filter
+
+/-! ## unambiguous machine -/
+section UMachine
+open PS.UHS
+variable {U π : Type} [DecidableEq U]
+
+/-- **C12, safety with a filter, unambiguous-grammar machine** (heap search and bucket search of
+    u_heap_search.py, any threshold, every fuel, every prefix of the run) on ACYCLIC grammars whose start
+    languages are disjoint: the yielded programs are members of the grammar (`U.genU`), are accepted by
+    the filter and are pairwise distinct.  Acyclicity gives `UHS.NoReent` (`__add_successors__(p, S)` does
+    not re-enter `query(S, ·)`, `UHS.noReent_of_acyclic`), which the skip loop
+    `while succ in self.deleted` of `query` needs to keep `succ[S]` a function. -/
+theorem C12_HS_U_filter_safe (E : UHS.Env U π) (H : GHyp E) (rank : UHS.UNT U → Nat) (hac : Acyclic E rank)
+    (hdisj : SDisj E) (hstarts : (E.G.starts.map (·.1)).Nodup) (d : UHS.UNT U) (fuel k : Nat) (s' : UHS.St U π)
+    (out : List Prog) (b : Bool) (h : UHS.take E fuel k (UHS.St.empty E.G) [] = some (s', out, b)) :
+    (∀ p ∈ out, PS.U.genU (E.G.toUCFG d) p = true) ∧ (∀ p ∈ out, E.filter p = true) ∧ out.Nodup := by
+  obtain ⟨a, b'⟩ := take_nodup E ⟨H, hdisj, hstarts, Or.inr (noReent_of_acyclic E H rank hac)⟩ fuel k s' out b h
+  refine ⟨?_, b', a⟩
+  intro p hp
+  rw [← derStart_iff_genU]
+  exact ((sinv_empty E).take H k (by intro q hq; cases hq) h).2 p hp
+
+/-- a program rejected at the yield site is in `deleted` afterwards, and `deleted` only grows there -/
+omit [DecidableEq U] in
+theorem C12_HS_U_rejected_deleted (s : UHS.St U π) (p q : Prog) :
+    p ∈ (s.addDeleted p).deleted ∧ (q ∈ s.deleted → q ∈ (s.addDeleted p).deleted) := by
+  unfold UHS.St.addDeleted
+  split
+  · rename_i h; exact ⟨by simpa using h, fun hq => hq⟩
+  · exact ⟨by simp, fun hq => List.mem_append_left _ hq⟩
+
+/-! non-vacuity: three start symbols, two alternatives for `+` at `S2`; the filter rejects the leaf `1` -/
+def mT : Ty := .base "int"
+def m0 : UHS.UNT Nat := (mT, 0)
+def m1 : UHS.UNT Nat := (mT, 1)
+def m2 : UHS.UNT Nat := (mT, 2)
+def mPlus : Sym := Sym.prim "+" (.arrow mT (.arrow mT mT))
+def mOne : Sym := Sym.prim "1" mT
+def mV0 : Sym := Sym.var 0 mT
+def mG : UG Nat :=
+  { starts := [(m2, 1/2), (m0, 1/4), (m1, 1/4)],
+    rules := [(m1, [(mPlus, [([m0, m0], 1)])]), (m0, [(mOne, [([], 1/4)]), (mV0, [([], 3/4)])]),
+              (m2, [(mPlus, [([m0, m1], 3/5), ([m1, m0], 2/5)])])] }
+def mFilter (p : Prog) : Bool := decide (p ≠ .node mOne [])
+def mE : UHS.Env Nat Rat := { G := mG, ops := UHS.probOps 0, filter := mFilter, kway := true }
+def mRank (nt : UHS.UNT Nat) : Nat := nt.2
+
+example : ∀ k s' out b, UHS.take mE 60 k (UHS.St.empty mG) [] = some (s', out, b) →
+    (∀ p ∈ out, PS.U.genU (mG.toUCFG m0) p = true) ∧ (∀ p ∈ out, mFilter p = true) ∧ out.Nodup :=
+  fun k s' out b h => C12_HS_U_filter_safe mE (GHyp.of_checks mE (by decide) (by decide) rfl) mRank
+    (acyclic_of_check mE mRank (by decide)) (sdisj_of_budet mE (budet_of_check mE (by decide))) (by decide) m0 60 k s' out b h
+
+/-- what the machine does on the example: the leaf `1` is rejected when the start symbol `S0` hands it
+    over; the 20 other programs that contain it are still yielded (the statement is an inclusion) -/
+example : (UHS.take mE 60 30 (UHS.St.empty mG) []).map (fun r => (r.2.1.length, r.2.2, r.2.1.all mFilter)) =
+    some (21, true, true) := by decide +kernel
+end UMachine
 
 end PS.C12HS
